@@ -217,8 +217,10 @@ Definition agrees_core (c : c16case) : bool :=
   | KStreamM paths e seed writes emitted => cvals_eqb emitted (pull_model_m paths e seed writes)
   | KCollM paths e uo thr init ops emitted => list_eqb triple_eqb emitted (coll_full_model_m paths e uo thr init ops)
   | KCollL e uo thr init phases emitted kinds =>
-      list_eqb triple_eqb emitted (coll_lossy_model e uo thr init phases)
-      && list_eqb Z.eqb kinds (coll_lossy_kinds e uo thr init phases)
+      (* one run of the kind-carrying loop: its changes are [coll_lossy_model]'s (Props/C16.v
+         C16_collection_lossy_kinds_model_erase), its kinds [coll_lossy_kinds] *)
+      let run := pull_collection_held_k unit id_filter (model_e e) (coll_state init) (coll_ro uo thr) (merged_events_k init phases) in
+      list_eqb triple_eqb emitted (map triple_of (map fst run)) && list_eqb Z.eqb kinds (map snd run)
   | KG _ _ => false
   end.
 
